@@ -198,7 +198,7 @@ def run_exact(rep, tier):
         exp = struct(protos[i]) == struct(protos[j])
         chk(f"eq[{i},{j}]", "VS-eq", bool(e) == exp, f"vspace({struct(protos[i])}) == vspace({struct(protos[j])}) is {e}, expected {exp}")
     # ---- containers (nested): axioms lifted leaf-wise, exact
-    nest = [("tuple2", lambda s: (s(2), s())), ("list-dict", lambda s: [s(2), {"k": s(), "j": (s(2),)}]), ("empty", lambda s: ((), [], {})), ("dict3", lambda s: {"b": s(2), "a": s(2), "c": s(2)})]
+    nest = [("tuple-of-scalars", lambda s: (s(), s())), ("nested-tuples", lambda s: ((s(), (s(), s())), s())), ("list-of-scalars", lambda s: [s(), s(), s()]), ("tuple2", lambda s: (s(2), s())), ("list-dict", lambda s: [s(2), {"k": s(), "j": (s(2),)}]), ("empty", lambda s: ((), [], {})), ("dict3", lambda s: {"b": s(2), "a": s(2), "c": s(2)})]
     for name, mkp in nest:
         ctr = itertools.count()
 
@@ -240,6 +240,17 @@ def run_exact(rep, tier):
             and (nl_ := sum(len(S.entries(l)) for l in leaves(x))) >= 0 and (nl_ == 0 or vs._inner_prod(x, reorder(y)) == vs._inner_prod(x, y)),
             "operations pair leaves by key, not by dict insertion order")
         chk(case, "VS-smul-distrib", ceq(vs._scalar_mul(vs._add(x, y), a), vs._add(vs._scalar_mul(x, a), vs._scalar_mul(y, a))))
+        # mut_add == add as a VALUE, whatever the leaves are made of (exact scalars here are immutable objects, like Python floats and nested tuples:
+        # an implementation that accumulates leaf-wise must return the container of the NEW leaves)
+        def rebuild(c):   # fresh containers around the same (immutable / array) leaves
+            if isinstance(c, dict):
+                return {k_: rebuild(v) for k_, v in c.items()}
+            if isinstance(c, (list, tuple)):
+                return type(c)(rebuild(v) for v in c)
+            return c.copy() if isinstance(c, onp.ndarray) else c
+        xc = rebuild(x)
+        chk(case, "VS-mut-add-value", ceq(vs._mut_add(xc, y), vs._add(x, y)), "mut_add(x, y) must equal add(x, y)")
+        chk(case, "VS-mut-add-none", ceq(vs.mut_add(None, x), x), "mut_add(None, x) must equal x")
         nl = sum(len(S.entries(l)) for l in leaves(x))
         chk(case, "VS-size", int(vs.size) == nl, f"size {vs.size} vs {nl}")
         if nl:
